@@ -53,7 +53,25 @@ func (i *interpreter) zvCall(fr *frame, fn *ssa.Function, args []value) value {
 		return nil
 	case "Observe":
 		if len(p.Observed) < 64 {
-			p.Observed = append(p.Observed, strArg(args[0])+": "+toString(args[1]))
+			text := "?"
+			func() {
+				defer func() {
+					if r := recover(); r != nil {
+						if _, isArg := r.(unsupportedArg); !isArg {
+							panic(r)
+						}
+						p.ObservedSymbolic = true
+					}
+				}()
+				var natives []interface{}
+				if vs, ok := args[1].([]value); ok {
+					for _, v := range vs {
+						natives = append(natives, i.toNative(v, reflect_anyT).Interface())
+					}
+				}
+				text = fmt.Sprint(natives...)
+			}()
+			p.Observed = append(p.Observed, strArg(args[0])+": "+text)
 		}
 		return nil
 	case "SameFloat":
